@@ -23,7 +23,7 @@ DESIGN_REF = '6.3'
 TECHNIQUE = ('decision-table product (exception source x want form x flags x flag carrier x position) enumerated '
              'exhaustively, cells instantiated with Hypothesis-drawn messages; oracle table written from the statement, '
              'true exception text from CPython')
-LEVEL_TEXT = ("Every cell of the table exception-source (15, incl. SyntaxError and IndentationError raised at run time, an exception group and pytest's failure outcomes) x want-form (14, incl. tracebacks that name only the type or are cut off before the final line) x flag-set (8) x carrier (3) x position (3) is "
+LEVEL_TEXT = ("Every cell of the table exception-source (18, incl. SyntaxError and IndentationError raised at run time, an exception group and pytest's failure outcomes) x want-form (14, incl. tracebacks that name only the type or are cut off before the final line) x flag-set (8) x carrier (3) x position (3) is "
               "visited (quick: with two fixed messages; thorough: plus tens of thousands of drawn messages) and the verdict, "
               "the recorded exception class and the trace of statements before/after are compared with the table written "
               "from the statement. Fault-enumeration style exploration of a finite table with sampled parameters.")
@@ -39,7 +39,7 @@ ASSUMPTIONS = [
 ]
 
 SOURCES = ['builtin', 'nomsg', 'qualified', 'qualified2', 'userdef', 'library', 'helper', 'noraise', 'syntax_eval', 'indent_exec', 'group',
-           'pytest_fail', 'pytest_raises', 'falsy_exc', 'falsy_len_exc']
+           'pytest_fail', 'pytest_raises', 'falsy_exc', 'falsy_len_exc', 'await_expr', 'await_assign', 'async_with']
 OUTCOME_SOURCES = ('pytest_fail', 'pytest_raises')
 FORMS = ['none', 'exact', 'stack', 'innermost', 'wrongmsg', 'wrongtype', 'prose', 'bare', 'ellipsis', 'unqualified', 'typeonly', 'typecolon', 'truncated_tb', 'header_only']
 FLAGSETS = [(), ('IED',), ('-ELL',), ('IW',), ('IED', '-ELL'), ('IED', 'IW'), ('-ELL', 'IW'), ('IED', '-ELL', 'IW')]
@@ -77,6 +77,15 @@ def raising_lines(source, msg, k):
         return [], "exec('if 1:\\nx = ' + {})".format(repr(str(len(msg))))
     if source == 'group':
         return [], 'raise ExceptionGroup({}, [ValueError(1), KeyError(2)])'.format(m)
+    if source == 'await_expr':
+        # the statement awaits at top level (expression statement / assignment / async with): the exception is raised
+        # inside the event loop the doctest runner drives
+        return ['async def aco{}():'.format(k), '    raise ValueError({})'.format(m)], 'await aco{}()'.format(k)
+    if source == 'await_assign':
+        return ['async def aco{}():'.format(k), '    raise ValueError({})'.format(m)], 'res{0} = await aco{0}()'.format(k)
+    if source == 'async_with':
+        return ['import contextlib', '@contextlib.asynccontextmanager', 'async def acm{}():'.format(k), '    raise KeyError({})'.format(m),
+                '    yield 1'], 'async with acm{}() as w: pass'.format(k)
     if source == 'falsy_exc':
         # an exception whose instances are falsy is an exception all the same
         return ['class Quiet{}(Exception):'.format(k), '    def __bool__(self):', '        return False'], 'raise Quiet{}({})'.format(k, m)
